@@ -270,19 +270,27 @@ reg("C04",
          "compared with the model's crash states / single-fault outcomes: a write that answers ok has its content stored "
          "(no entry made visible by swallowing a failed publication), a failed one leaves the old state, the retry works")
 
+def R_corpus(pid):
+    return corpus_programs(pid)
+
+
 reg("C13",
     gen=lambda seed, tier: P.gen_roundtrip_programs(G.Rng(seed + 13), N(tier, 20, 100)),
     monitors=[P.mon_roundtrip],
     extra=lambda seed, tier, flavours: merge(
         LG.leg_fault_injection(LG.fault_cases(G.Rng(seed + 13)), flavours[0], tier),
-        LG.leg_short_write(G.Rng(seed + 131), flavours[0], N(tier, 8, 60))),
+        LG.leg_short_write(G.Rng(seed + 131), flavours[0], N(tier, 8, 60)),
+        LG.leg_mmap_failure(P.gen_size_matrix(G.Rng(seed + 132)) + R_corpus("C13"), flavours,
+                            [mon_generic, P.mon_size_matrix, lambda rr: mon_content_valid(rr)])),
     nontrivial=lambda rr: True,
     rule="errno injection with strace: for write / write (async) / write_hash / read / metadata / copy / remove / list, "
          "every syscall class x (first, middle, last occurrence in quick; every occurrence in thorough) x {EIO, ENOSPC "
          "(+EACCES, EMFILE thorough)}; judged: error or truthful success, no panic/hang, content area valid, other entry "
          "intact, retry without fault succeeds and reads back; distinct = (op, syscall, errno, result class); plus real "
          "SHORT WRITES: a file-size limit (RLIMIT_FSIZE, SIGXFSZ ignored) cuts the index append / temp-file write at several "
-         "byte offsets so that write(2) returns short and the retry fails with EFBIG; FAULT CORRESPONDENCE: the outcome of every "
+         "byte offsets so that write(2) returns short and the retry fails with EFBIG; FAILING mmap(2): the declared-size "
+         "matrix (sync/async x keyed/by address x size =,<,> data x chunk shapes, incl. 1 MiB and beyond) under an LD_PRELOAD "
+         "shim that fails every file-backed shared mapping, judged by the same monitors; FAULT CORRESPONDENCE: the outcome of every "
          "real injection (result class + every file and link of the cache afterwards, bucket checksums/times masked) must be "
          "one of the outcomes the model's runFault produces for a single failing call of that operation (driver op "
          "`faultset`: every call index x error kind x partial-write length incl. 'all bytes written, error reported')")
